@@ -141,6 +141,9 @@ def _classes():
     return [
         ("AnyFrom with many characters", "from mc import den\nchars = list('abcdefghijklmnop0123456789_-^]\\\\[$.|?*+(){}/')\nc = AnyFrom(*chars)\nd, m = den.of_text(str(c))\nassert den.diff(d, m) == den.diff(den.from_chars(chars), m), str(c)\n"
                                          "n = AnyButFrom(*chars)\nd2, m2 = den.of_text(str(n))\nassert den.diff(d2, m2) == den.diff(den.compl(den.from_chars(chars)), m2), str(n)\n"
+                                         "for base, holes, dups in (('ABCDEFGHIJKLMNOPQ', 'KLMNO', 'AABBC'), ('abcdefghijklmnopqrst', 'f', 'z'[:0] + 'a'), ('0123456789abcdefghij', 'cd', '00'), ('abcdefghijklmnopqrstuvwxyz', 'mnopq', 'aaaaa')):\n"
+                                         "    args = [ch for ch in base if ch not in holes] + list(dups)\n    want = den.from_chars([ch for ch in base if ch not in holes])\n    for order in (args, list(reversed(args)), sorted(args), args[1::2] + args[::2]):\n"
+                                         "        dd, mm = den.of_text(str(AnyFrom(*order)))\n        assert den.diff(dd, mm) == den.diff(want, mm), (base[:4], str(AnyFrom(*order)))\n        dn, mn = den.of_text(str(AnyButFrom(*order)))\n        assert den.diff(dn, mn) == den.diff(den.compl(want), mn), base[:4]\n"
                                          "odd = [chr(c) for c in range(33, 127, 2)]\nd3, m3 = den.of_text(str(AnyFrom(*odd)))\nassert den.diff(d3, m3) == den.diff(den.from_chars(odd), m3)"),
         ("union and subtraction of a dozen ranges", "from mc import den\nrs = [(chr(0x100 + 16 * i), chr(0x100 + 16 * i + 9)) for i in range(12)]\nu = AnyBetween(*rs[0])\nfor a, b in rs[1:]:\n    u = u | AnyBetween(a, b)\n"
                                                     "d, m = den.of_text(str(u))\nassert d == den.norm([(ord(a), ord(b)) for a, b in rs]), str(u)\n"
